@@ -20,7 +20,10 @@ Vocabulary
   `Finset.sum` and `Matrix` operations.
 Every `…_spec` theorem asserts a normal return (`= .ok O'`), hence in particular the absence of any
 out-of-range access (`Err.ub`) for these operands; `no_oob_*` spell that out for all operands,
-conformable or not.
+conformable or not, for nine routines (for the others it is the disjunction of `…_spec` and
+`…_nonconformable_raises`, whose hypotheses are complementary).  No theorem covers `covar` without rows
+or columns, the extremum search on an empty matrix, and the second and third `kroneckerMult` with
+`check = false`.
 -/
 namespace Bpp.C04
 open Bpp Bpp.Mx Bpp.Mx.Store
@@ -220,7 +223,7 @@ theorem taylor_spec {A : Store ℝ} (hA : A.WF) (hsq : A.nrows = A.ncols) (p : N
       ∀ q (h : q < v.size), v[q].kind = .row ∧ v[q].Holds A.nrows A.nrows (Spec.pow A.entry A.nrows q) :=
   taylor_holds hA hsq p
 
-/-! ## Kronecker, Hadamard and direct sums (`MatrixTools.h:919-1205`) -/
+/-! ## Kronecker, Hadamard and direct sums (`MatrixTools.h:922-1209`) -/
 
 /-- `A ⊗ B`: entry `(i,j)` is `A(i / nrB, j / ncB) · B(i % nrB, j % ncB)` -/
 theorem kron_spec {A B : Store ℝ} (hA : A.WF) (hB : B.WF) (O : Store ℝ) :
@@ -300,7 +303,7 @@ theorem directSumN_spec (vA : List (Store ℝ)) (hwf : ∀ M ∈ vA, M.WF) (O : 
   simp only [ScalarReal.zero_eq] at this
   exact this
 
-/-! ## covariance (`MatrixTools.h:884-908`) -/
+/-! ## covariance (`MatrixTools.h:887-911`) -/
 
 /-- `covar(A, O)`: `(1/n)·A·Aᵀ − μ·μᵀ` for a sample matrix with `r ≥ 1` rows and `n ≥ 1` columns -/
 theorem covar_spec {A : Store ℝ} (hA : A.WF) (hr : 0 < A.nrows) (hn : 0 < A.ncols) (O : Store ℝ) :
@@ -314,7 +317,7 @@ theorem covar_spec {A : Store ℝ} (hA : A.WF) (hr : 0 < A.nrows) (hn : 0 < A.nc
   push_cast
   ring
 
-/-! ## extremum search and element sum (`MatrixTools.h:587-693, 1235-1246`) -/
+/-! ## extremum search and element sum (`MatrixTools.h:587-693, 1239-1250`) -/
 
 /-- `whichMax` / `max` of a non-empty matrix: the position is inside the matrix, holds the largest
 entry, and is the first such position in row-major scan order -/
@@ -516,8 +519,9 @@ theorem mult_storage_independent (kA kB : Kind) (O : Store ℝ) (r n c : Nat) (a
   rw [hA.entry_eq hi (Finset.mem_range.mp hk), hB.entry_eq (Finset.mem_range.mp hk) hj]
 
 /-- every routine's result is a function of the operands' *entries* only: two operands of different
-classes holding the same matrix give outputs holding the same matrix (here: transpose, sum, direct
-sum, Kronecker product, power) -/
+classes holding the same matrix (no dimension zero) give outputs holding the same matrix — spelled out
+here for transpose, direct sum and Kronecker product; for every other routine it is the content of its
+`_spec` theorem, which is stated for operands of arbitrary classes through `Holds` / `entry` -/
 theorem storage_independent {A A' B B' : Store ℝ} {r c r2 c2 : Nat} {a b : Nat → Nat → ℝ}
     (hr : 0 < r) (hc : 0 < c) (hr2 : 0 < r2) (hc2 : 0 < c2)
     (hA : A.Holds r c a) (hA' : A'.Holds r c a) (hB : B.Holds r2 c2 b) (hB' : B'.Holds r2 c2 b) (O O2 : Store ℝ) :
@@ -561,6 +565,37 @@ theorem storage_independent {A A' B B' : Store ℝ} {r c r2 c2 : Nat} {a b : Nat
       simp only [Spec.kron, hA.entry_eq d1 d2, hB.entry_eq d3 d4]
     · obtain ⟨d1, d2, d3, d4⟩ := hdiv i j hi hj
       simp only [Spec.kron, hA'.entry_eq d1 d2, hB'.entry_eq d3 d4]
+
+/-! ### … except for operands with exactly one zero dimension (known finding
+`C04-degenerate-shape-storage-dependence`): the vector-of-vector classes report `0 × 0` for them and the
+conformability tests see the reported dimensions, so whether the same call raises depends on the class.
+The two independence theorems above assume every dimension positive; these witnesses (evaluated in `Rat`)
+are the boundary. -/
+
+/-- `(2 × 3) · (3 × 0)`: a flat- or row-stored `B` gives the `2 × 0` product, a column-stored `B`
+(reporting `0 × 0`) a `DimensionException` -/
+theorem mult_storage_dependent_degenerate :
+    (match mult (Store.ofFn .lin 2 3 fun i j => ((i + j : Nat) : Rat)) (Store.ofFn .col 3 0 fun _ _ => 0) (Store.empty .lin) with
+      | .error .dimension => true
+      | _ => false) = true ∧
+    (match mult (Store.ofFn .lin 2 3 fun i j => ((i + j : Nat) : Rat)) (Store.ofFn .row 3 0 fun _ _ => 0) (Store.empty .lin) with
+      | .ok O => O.nrows == 2 && O.ncols == 0
+      | .error _ => false) = true ∧
+    (match mult (Store.ofFn .lin 2 3 fun i j => ((i + j : Nat) : Rat)) (Store.ofFn .lin 3 0 fun _ _ => 0) (Store.empty .lin) with
+      | .ok O => O.nrows == 2 && O.ncols == 0
+      | .error _ => false) = true := by
+  refine ⟨?_, ?_, ?_⟩ <;> decide +kernel
+
+/-- `(0 × 3) + (0 × 3)`: two flat-stored operands are added, a flat- and a row-stored one (reporting
+`0 × 0`) raise a `DimensionException` -/
+theorem add_storage_dependent_degenerate :
+    (match add (Store.ofFn .lin 0 3 fun _ _ => (0 : Rat)) (Store.ofFn .row 0 3 fun _ _ => 0) with
+      | .error .dimension => true
+      | _ => false) = true ∧
+    (match add (Store.ofFn .lin 0 3 fun _ _ => (0 : Rat)) (Store.ofFn .lin 0 3 fun _ _ => 0) with
+      | .ok O => O.nrows == 0 && O.ncols == 3
+      | .error _ => false) = true := by
+  refine ⟨?_, ?_⟩ <;> decide +kernel
 
 /-! ## non-vacuity: concrete operands of mixed classes meeting the hypotheses -/
 
